@@ -86,7 +86,13 @@ class LiveServer:
             from nauyaca.security.tls import create_server_context
 
             ctx = create_server_context(cf, kf)
-            server = await loop.create_server(lambda: GeminiServerProtocol(self.handler, None), "127.0.0.1", 0, ssl=ctx)
+            try:   # the keyword arguments the real start_server hands to create_server for TLS listeners
+                from nauyaca.server.server import _ssl_shutdown_kwargs
+
+                extra = _ssl_shutdown_kwargs()
+            except ImportError:
+                extra = {}
+            server = await loop.create_server(lambda: GeminiServerProtocol(self.handler, None), "127.0.0.1", 0, ssl=ctx, **extra)
         else:
             from nauyaca.security.pyopenssl_tls import create_pyopenssl_server_context
 
@@ -193,12 +199,13 @@ def connect_raw(port: int, rcvbuf: int | None = None, timeout: float = 20.0) -> 
 
 
 def tls_fetch(port: int, request: bytes, reader: str = "fast", rcvbuf: int | None = None, rng=None, ctx: ssl.SSLContext | None = None,
-              timeout: float = 60.0, sink=None, stall=None) -> dict:
+              timeout: float = 60.0, sink=None, stall=None, stalls: int = 1) -> dict:
     """One request over TLS with a plain blocking client; the response goes to `sink(bytes)`.
 
     reader: fast (large reads) | slow (1 byte per read, small pauses; larger reads after 60 000 reads)
             | bursty (random read sizes with random pauses)
-            | stall (reads 32 KiB, then does not read while `stall()` lets 31 s pass on the server's clock, then reads the rest)
+            | stall (`stalls` times: reads 32 KiB, then does not read while `stall()` lets time pass on the server's
+              clock; then reads the rest)
     Returns {'eof': 'clean'|'ragged'|'reset'|'timeout'|'error:<X>', 'version': str|None, 'n': bytes read}.
     """
     ctx = ctx or tls_peer.peer_client_ctx(permissive=False)
@@ -214,17 +221,19 @@ def tls_fetch(port: int, request: bytes, reader: str = "fast", rcvbuf: int | Non
         s.sendall(request)
         reads = 0
         eof = "clean"
-        stalled = False
+        stalled = 0
         t0 = time.time()
         while True:
             try:
-                if reader == "stall" and not stalled and n >= 32768:
-                    stalled = True
-                    time.sleep(0.3)      # let the server fill every buffer on the way
+                if reader == "stall" and stalled < stalls and n >= 32768 * (stalled + 1):
+                    stalled += 1
+                    time.sleep(0.3 if stalled == 1 else 0.05)      # let the server fill every buffer on the way
                     if stall:
                         stall()
-                    time.sleep(0.4)
-                if reader in ("fast", "stall"):
+                    time.sleep(0.4 if stalled == 1 else 0.1)
+                if reader == "stall":
+                    b = s.recv(8192)
+                elif reader == "fast":
                     b = s.recv(262144)
                 elif reader == "slow":
                     if reads < 60000:
